@@ -60,6 +60,10 @@ def run(tier, seed):
         if e["outcome"] != "ok":
             continue            # the property is about error-free inputs
         ps = pieces(p)
+        if p["id"] % 2 == 0 and len(ps) >= 3:
+            # a test item among the inputs: running it must leave the session's variables alone
+            k = 1 + (p["id"] // 2) % (len(ps) - 1)
+            ps.insert(k, "test verif_probe { assert(1 == 1) }\n")
         jobs.append((p["id"], [run_req(x) for x in ps], [run_req("".join(ps))]))
     res = pmap(lambda j: (last_answer(j[1]), last_answer(j[2])), jobs)
     for (pid, inc_reqs, one_req), (inc, one) in zip(jobs, res):
@@ -86,7 +90,7 @@ def run(tier, seed):
         if problem:
             ck.fail(key, f"{key}: {problem}", {"cmd": "garden reftest-json-session s.json", "requests": inc_reqs, "single": one_req, "expected": e})
     vacuity(len(jobs) * 2 > n, f"only {len(jobs)} of {n} generated programs are error-free")
-    ck.assumptions += ["each top-level name is defined once (generator feature unique_top); functions and the enum are sent as their own inputs"]
+    ck.assumptions += ["each top-level name is defined once (generator feature unique_top); functions and the enum are sent as their own inputs; every second program has a passing `test` item among its inputs"]
     return ck.finish(rule="error-free generated programs, one request per definition / top-level statement vs one request for everything; non-trivial = programs with at least 4 inputs; compared: last answered value (both ways and with Ref.tla) and printed output")
 
 
